@@ -35,7 +35,7 @@ LEVEL_TEXT = (
 LEVEL_NOTE = "Trusts hashlib.md5, CPython float repr, and the harness's own canonical encoder (cross-validated against json.dumps on every value)."
 CLASSES = [
     "nested", "unicode", "float_nonint", "float_intvalued", "bool_int_mix",
-    "tuple_spelling", "synced_wrapper", "key_perm>=3", "cross_process", "golden", "alias",
+    "tuple_spelling", "synced_wrapper", "key_perm>=3", "cross_process", "golden", "alias", "rekey_then_reopen_by_id",
 ]
 ASSUMPTIONS = [
     "md5 collisions do not occur within the explored space",
@@ -293,6 +293,41 @@ def run_case(case, ctx):
             if w != g:
                 mms.append(Mismatch("cross_process", f"id of {v!r} in another session is {g}, expected {w}"))
         return {"mismatches": mms, "classes": ["cross_process"], "nontrivial": True}
+    if kind == "rekey_cache":
+        # id = hash(state point) must also hold for handles re-opened by id after the state point of
+        # a job was changed through a handle that shares the project's state point cache
+        import signac as _s
+        from signac.errors import JobsCorruptedError
+
+        d = ctx.tmpdir("c01h")
+        project = _s.init_project(d)
+        sp, edits = case["sp"], case.get("edits", [])
+        project.open_job(sp).init()
+        old_id = oracle.job_id(sp)
+        how = case.get("how", "id")
+        p2 = _s.Project(d)
+        job = p2.open_job(id=old_id) if how == "id" else next(iter(p2))
+        if case.get("touch"):
+            job.statepoint()
+        cur = json.loads(json.dumps(sp))
+        for k, v in edits:
+            job.sp[k] = v
+            cur[k] = v
+            if job.id != oracle.job_id(cur):
+                mms.append(Mismatch("id_after_edit", f"after sp[{k!r}]={v!r} on {sp!r}: id {job.id}, expected {oracle.job_id(cur)}"))
+        seen = {old_id, job.id}
+        for jid in sorted(seen):
+            for proj in (p2, _s.Project(d)):
+                try:
+                    h = proj.open_job(id=jid)
+                    got = h.statepoint()
+                    cached = dict(h.cached_statepoint)
+                except (KeyError, LookupError, JobsCorruptedError):
+                    continue
+                for what, v in (("statepoint()", got), ("cached_statepoint", cached)):
+                    if oracle.job_id(v) != jid or h.id != jid:
+                        mms.append(Mismatch("reopened_id_ne_hash", f"open_job(id={jid[:8]}) after editing {sp!r} with {edits!r}: {what} = {v!r} hashes to {oracle.job_id(v)[:8]}"))
+        return {"mismatches": mms, "classes": ["rekey_then_reopen_by_id"], "nontrivial": bool(edits)}
     if kind == "partition":
         # injectivity on an enumerated slice: ids partition == canonical-text partition
         project = _project(ctx)
@@ -406,6 +441,16 @@ def run(ctx):
         }
     )
     drive(ctx, case_st, n_random, ctx.apply)
+
+    # id = hash for handles re-opened by id after edits through cache-sharing handles
+    hist_st = st.fixed_dictionaries({
+        "kind": st.just("rekey_cache"),
+        "sp": gen.small_statepoints(allow_bool_int_mix=True),
+        "edits": st.lists(st.tuples(st.sampled_from(["a", "b", "zz"]), st.sampled_from([0, 1, 1.0, True, "1", None, [1, 2]])), min_size=1, max_size=3),
+        "how": st.sampled_from(["id", "iter"]),
+        "touch": st.booleans(),
+    })
+    drive(ctx, hist_st, 60 if ctx.tier == "quick" else 600, ctx.apply)
 
     # cross-process batches
     nb = 1 if ctx.tier == "quick" else 3
